@@ -44,6 +44,9 @@ type messageTransformSubscriberDecorator struct {
 
 	closing   chan struct{}
 	closeOnce sync.Once
+
+	// subscribeLock makes subscribeWg.Add (Subscribe) and subscribeWg.Wait (Close) mutually exclusive
+	subscribeLock sync.Mutex
 }
 
 func (t *messageTransformSubscriberDecorator) Subscribe(ctx context.Context, topic string) (<-chan *Message, error) {
@@ -53,7 +56,9 @@ func (t *messageTransformSubscriberDecorator) Subscribe(ctx context.Context, top
 	}
 
 	out := make(chan *Message)
+	t.subscribeLock.Lock()
 	t.subscribeWg.Add(1)
+	t.subscribeLock.Unlock()
 	go func() {
 		for msg := range in {
 			t.transform(msg)
@@ -77,7 +82,9 @@ func (t *messageTransformSubscriberDecorator) Close() error {
 	t.closeOnce.Do(func() { close(t.closing) })
 	err := t.sub.Close()
 
+	t.subscribeLock.Lock()
 	t.subscribeWg.Wait()
+	t.subscribeLock.Unlock()
 	return err
 }
 
